@@ -30,6 +30,9 @@ func opNewMasked(w *World, st *Step) execResult {
 	opts := []tensor.ConsOpt{tensor.WithShape(shape...), tensor.WithBacking(b.Interface(), mask)}
 	opts = append(opts, w.engineOpt()...)
 	w.backs = append(w.backs, b)
+	if w.free {
+		w.ncells += n
+	}
 	return execResult{ret: tensor.New(opts...)}
 }
 
